@@ -398,4 +398,25 @@ theorem C17_holds (rows : List Row) (hok : tableOk rows = true) (Exec : List Ev 
     (hwf : ∀ τ, Exec τ → WF τ) (hcov : ∀ τ, Exec τ → Covered rows τ) : C17_statement Exec :=
   fun τ h => ⟨hwf τ h, table_sound rows hok τ (hwf τ h) (hcov τ h)⟩
 
+
+/-- `policy_sound`'s hypothesis is satisfiable: the location is guarded by the lock -/
+example : Respects (fun _ => Policy.guardedBy (7, "mu")) exTrace := by
+  intro n t x w a h
+  match n, h with
+  | 1, h => cases h; exact ⟨fun _ => (by decide), fun h => (by cases h)⟩
+  | 4, h => cases h; exact ⟨fun h => (by cases h), fun _ => ⟨.r, (by decide)⟩⟩
+  | 0, h | 2, h | 3, h | 5, h => cases h
+  | n + 6, h => simp [exTrace] at h
+
+/-- `C17_holds`'s hypotheses are satisfiable by a non-empty set of executions -/
+example : C17_statement (fun τ => τ = exTrace) :=
+  C17_holds exRows (by decide) _ (fun τ h => by subst h; decide) (fun τ h => by
+    subst h
+    intro n t x w a h
+    match n, h with
+    | 1, h => cases h; exact ⟨exRows[0], by decide, rfl, rfl, rfl, by decide⟩
+    | 4, h => cases h; exact ⟨exRows[1], by decide, rfl, rfl, rfl, by decide⟩
+    | 0, h | 2, h | 3, h | 5, h => cases h
+    | n + 6, h => simp [exTrace] at h)
+
 end Bpmn.Props.C17
